@@ -56,6 +56,12 @@ var apByz = []string{"ad-ifrelevant-empty", "ad-ifrelevant-garbage", "ad-ifrelev
 	"tkt-plain-garbage-0", "tkt-plain-garbage-1", "tkt-plain-garbage-40", "auth-plain-garbage-0", "auth-plain-garbage-1", "auth-plain-garbage-40",
 	"tkt-cname-empty", "auth-cname-empty", "sname-empty", "auth-cksum-short", "session-key-empty"}
 
+// kdc-err: a KDC that answers every request of the exchange, for as long as the client keeps
+// asking, with a KRB-ERROR of one code (1..93) naming the realm asked, another realm or no client
+// realm at all; codes that make a client start again (24, 25, 52, 68, ...) must still end.
+const kdcErrCodes = 93
+const kdcErrSpace = kdcErrCodes * 3
+
 const replyBound = 1400 // upper bound of a reply's length for the enumeration (deliveries beyond the real length are skipped)
 
 func flowCases(tier string) []caseT {
@@ -80,6 +86,7 @@ func flowCases(tier string) []caseT {
 		add("kdc-field", ex, 2500, true)
 		add("kdc-byz", ex, len(kdcByz)+400, false)
 		add("kdc-liar", ex, len(kdcLiars), false)
+		add("kdc-err", ex, kdcErrSpace, false)
 	}
 	for _, et := range []string{"18", "23", "16", "19"} {
 		add("ap-prefix", et, 1600, true)
@@ -156,6 +163,7 @@ func runKDCFlow(tp *Tape, res *core.Result, rng *core.Rng) {
 	gk.Wire(net, other, []string{"10.0.1.1:88"}, pt)
 	simnet.Install(net)
 	var mangle func(reply []byte) []byte
+	var errEvery func(req []byte) []byte
 	var honestLen int
 	net.Mangle = func(proto, addr string, req, reply []byte) []byte {
 		if !armed || len(req) == 0 {
@@ -171,6 +179,13 @@ func runKDCFlow(tp *Tape, res *core.Result, rng *core.Rng) {
 		}
 		t := isTarget(req)
 		targetN++
+		if targetN > 200 {
+			// the client keeps asking: unwind it (deliver turns this into the violation)
+			panic(floodPanic)
+		}
+		if errEvery != nil && (t || targetN > 1) {
+			return errEvery(req)
+		}
 		if t && mangle != nil {
 			honestLen = len(reply)
 			_ = honestLen
@@ -190,7 +205,7 @@ func runKDCFlow(tp *Tape, res *core.Result, rng *core.Rng) {
 		res.Verdict, res.Harness = "harness-error", "krb5.conf: "+err.Error()
 		return
 	}
-	space := map[string]int{"kdc-prefix": replyBound, "kdc-subst": replyBound * 10, "kdc-field": 2500, "kdc-byz": len(kdcByz) + 400, "kdc-liar": len(kdcLiars)}[tp.Mode]
+	space := map[string]int{"kdc-prefix": replyBound, "kdc-subst": replyBound * 10, "kdc-field": 2500, "kdc-byz": len(kdcByz) + 400, "kdc-liar": len(kdcLiars), "kdc-err": kdcErrSpace}[tp.Mode]
 	if space == 0 {
 		res.Verdict, res.Harness = "invalid", "mode"
 		return
@@ -211,7 +226,7 @@ func runKDCFlow(tp *Tape, res *core.Result, rng *core.Rng) {
 		batchPos = k
 		// a fresh client per delivery; preparation over an honest network
 		cl := client.NewWithPassword("alice", "SIM.TEST", flowPassword, cfg)
-		armed, perturb, mangle, targetN, honestLen = false, nil, nil, 0, 0
+		armed, perturb, mangle, errEvery, targetN, honestLen = false, nil, nil, nil, 0, 0
 		net.Beh = map[string]world.Behaviour{}
 		if ex == "tgs" || ex == "referral" {
 			if e := cl.Login(); e != nil {
@@ -245,6 +260,27 @@ func runKDCFlow(tp *Tape, res *core.Result, rng *core.Rng) {
 				}
 				desc = fmt.Sprintf("%s(%d)", perturb[0].Kind, perturb[0].Arg)
 			}
+		case "kdc-err":
+			code, variant := int32(d/3+1), d%3
+			errEvery = func(req []byte) []byte {
+				q, _ := rk.DecKDCReq(req)
+				e := rk.KRBError{STime: time.Now().UTC().Truncate(time.Second), Code: code, Realm: "SIM.TEST", SName: rk.ParseName("krbtgt/SIM.TEST")}
+				if q != nil && q.CName != nil {
+					e.CName = q.CName
+				}
+				switch variant {
+				case 0: // the realm that was asked
+					if q != nil {
+						r := q.Realm
+						e.CRealm = &r
+					}
+				case 1:
+					r := "OTHER.TEST"
+					e.CRealm = &r
+				}
+				return e.EncBytes()
+			}
+			desc = fmt.Sprintf("every reply is KRB-ERROR %d (crealm variant %d)", code, variant)
 		case "kdc-liar":
 			b := kdcLiars[d]
 			net.Beh["tcp!10.0.0.1:88"] = b
